@@ -176,7 +176,11 @@ impl<'a> DwarfUnitParser<'a> {
                         .dwarf
                         .die_ranges(bs_unit.unit(), die)?
                         .collect::<Result<Vec<Range>, _>>()?
-                        .into();
+                        .into_iter()
+                        // a range at address 0 is what the linker leaves of a function it
+                        // discarded (--gc-sections): this function is not in the program
+                        .filter(|r| r.begin != 0)
+                        .collect();
 
                     // subprograms without a range are useless for indexing
                     if !ranges.is_empty() {
